@@ -224,6 +224,18 @@ func (e *Engine) strSliceValue(st *State, ss []StrV) Value {
 	return e.newSlice(st, el, len(el), StrV{})
 }
 
+// reRecv: the *regexp.Regexp receiver; a nil pointer is a nil-pointer dereference in the real method.
+func reRecv(e *Engine, st *State, v Value, pos token.Pos) (RegexpV, []exit) {
+	if re, ok := v.(RegexpV); ok {
+		return re, nil
+	}
+	if p, ok := v.(PtrV); ok && p.IsNil() {
+		e.reportPanic(st, e.tc.True, "nil pointer dereference (method call on a nil *regexp.Regexp)", pos)
+		return RegexpV{}, []exit{{st: st, kind: exitPanic, pmsg: "nil pointer dereference"}}
+	}
+	panic(unsupported("regexp method on a value that is not a modelled *regexp.Regexp"))
+}
+
 func init() {
 	stubs["regexp.MustCompile"] = func(e *Engine, st *State, fr *Frame, fn *ssa.Function, args []Value, pos token.Pos) []exit {
 		return retExit(st, e.compileRe(concreteString(args[0], "regexp pattern")))
@@ -236,7 +248,11 @@ func init() {
 		return retExit(st, TupleV{e.reMatch(st, re, args[1].(StrV)), IfaceV{}})
 	}
 	stubs["(*regexp.Regexp).MatchString"] = func(e *Engine, st *State, fr *Frame, fn *ssa.Function, args []Value, pos token.Pos) []exit {
-		return retExit(st, e.reMatch(st, args[0].(RegexpV), args[1].(StrV)))
+		re, px := reRecv(e, st, args[0], pos)
+		if px != nil {
+			return px
+		}
+		return retExit(st, e.reMatch(st, re, args[1].(StrV)))
 	}
 	stubs["(*regexp.Regexp).Match"] = func(e *Engine, st *State, fr *Frame, fn *ssa.Function, args []Value, pos token.Pos) []exit {
 		sl := args[1].(SliceV)
@@ -244,10 +260,17 @@ func init() {
 		if !sl.Nil {
 			s = StrV{B: e.bytesOf(st, sl)}
 		}
-		return retExit(st, e.reMatch(st, args[0].(RegexpV), s))
+		re, px := reRecv(e, st, args[0], pos)
+		if px != nil {
+			return px
+		}
+		return retExit(st, e.reMatch(st, re, s))
 	}
 	stubs["(*regexp.Regexp).ReplaceAllString"] = func(e *Engine, st *State, fr *Frame, fn *ssa.Function, args []Value, pos token.Pos) []exit {
-		re := args[0].(RegexpV)
+		re, px := reRecv(e, st, args[0], pos)
+		if px != nil {
+			return px
+		}
 		src, ok1 := args[1].(StrV).Concrete()
 		repl, ok2 := args[2].(StrV).Concrete()
 		if !ok1 || !ok2 {
@@ -259,7 +282,10 @@ func init() {
 		return retExit(st, e.strConst(re.Re.ReplaceAllString(src, repl)))
 	}
 	stubs["(*regexp.Regexp).FindStringSubmatch"] = func(e *Engine, st *State, fr *Frame, fn *ssa.Function, args []Value, pos token.Pos) []exit {
-		re := args[0].(RegexpV)
+		re, px := reRecv(e, st, args[0], pos)
+		if px != nil {
+			return px
+		}
 		s := args[1].(StrV)
 		if cs, ok := s.Concrete(); ok {
 			m := re.Re.FindStringSubmatch(cs)
